@@ -532,7 +532,7 @@ let show_canon l = "(ok (" ^ String.concat " " (List.sort compare l) ^ "))"
 
 let op_queens (args : sx) : string =
   match args with
-  | L [n] -> show_canon (canon_form (fun v -> string_of_int (int_of_nat v)) (queens_form (nat_atom n)))
+  | L (n :: _) -> show_canon (canon_form (fun v -> string_of_int (int_of_nat v)) (queens_form (nat_atom n)))
   | _ -> raise (Bad "queens")
 (* large boards: only the shape (glue arithmetic): number of constraints, largest index *)
 let op_queensbig (args : sx) : string =
@@ -543,7 +543,7 @@ let op_queensbig (args : sx) : string =
 (* sudoku r (text) ; white space beyond ASCII is tagged c:s by the harness *)
 let op_sudoku (args : sx) : string =
   match args with
-  | L [r; L txt] ->
+  | L (r :: L txt :: _) ->
       let tbl = Hashtbl.create 4 in
       let cps = List.map (fun a -> let s = atom a in
         match String.index_opt s ':' with
@@ -589,12 +589,12 @@ let show_edges l = "(" ^ String.concat " " (List.map (fun (a, b) -> Printf.sprin
 (* convert u (edges) *)
 let op_convert (args : sx) : string =
   match args with
-  | L [u; es] -> "(ok " ^ show_edges (read_graph (atom u = "1") (edges_of es)) ^ ")"
+  | L (u :: es :: _) -> "(ok " ^ show_edges (read_graph (atom u = "1") (edges_of es)) ^ ")"
   | _ -> raise (Bad "convert")
 (* colors k (edges) : the colour graph as a set of unordered pairs of (vertex colour) *)
 let op_colors (args : sx) : string =
   match args with
-  | L [k; u; es] ->
+  | L (k :: u :: es :: _) ->
       let e = read_graph (atom u = "1") (edges_of es) in
       let k = int_atom k in
       let verts = List.sort_uniq compare (List.concat_map (fun (a, b) -> [int_of_nat a; int_of_nat b]) e) in
@@ -637,3 +637,15 @@ let op_cliquemodels (args : sx) : string =
 let () =
   List.iter (fun (n, f) -> Hashtbl.replace table n f; Hashtbl.replace classifiers n (fun _ real _ -> if real = "(panic)" then "panic" else "models"))
     [("queensmodels", op_queensmodels); ("cliquemodels", op_cliquemodels)]
+(* sudoku: the givens are part of the property ("keep every given digit", "non-digits are blanks",
+   "white space is ignored"); a different hint set is a failing input, different constraint families are not necessarily *)
+let classify_sudoku (_ : sx) (real : string) (model : string) : string =
+  if real = "(panic)" then "panic" else if real = "(not-a-formula)" then "illformed"
+  else
+    let hints s = match (try Some (parse_sx s) with Bad _ -> None) with
+      | Some (L [A "ok"; L items]) -> Some (List.sort compare (List.filter_map (function L [A c; A d] -> Some (c, d) | _ -> None) items))
+      | _ -> None in
+    match hints real, hints model with
+    | Some h1, Some h2 -> if h1 <> h2 then "hints" else "output"
+    | _ -> "output"
+let () = Hashtbl.replace classifiers "sudoku" classify_sudoku
